@@ -187,6 +187,11 @@ func init() {
 	I[apiP+"SetUnwind"] = func(t *Thread, fn *ssa.Function, a []Value) Value {
 		t.ex.unwind = t.concreteInt(a[0].(*Term), "unwind")
 		t.ex.unwindAs = concreteStr(a[1], "unwind name")
+		t.ex.unwindFn = ""
+		if i := strings.Index(t.ex.unwindAs, "@"); i >= 0 {
+			// "name@function": the bound applies only to loops of functions whose name contains "function"
+			t.ex.unwindAs, t.ex.unwindFn = t.ex.unwindAs[:i], t.ex.unwindAs[i+1:]
+		}
 		return nil
 	}
 	I[apiP+"ExploreSchedules"] = func(t *Thread, fn *ssa.Function, a []Value) Value {
